@@ -499,9 +499,11 @@ func DefaultExternals() map[string]externalFn {
 			fr.i.nextChanID++
 			return &channel{cap: 1, id: fr.i.nextChanID}
 		},
+		// time.Tick: the returned channel holds ONE pending tick (the first tick has just elapsed); after it is
+		// consumed the channel stays empty, i.e. the ticking loop parks until the harness ends.
 		"time.Tick": func(fr *frame, args []value) value {
 			fr.i.nextChanID++
-			return &channel{cap: 1, id: fr.i.nextChanID}
+			return &channel{cap: 1, id: fr.i.nextChanID, buf: []value{fr.i.timeFromNs(fr.i.clockNs)}}
 		},
 		"(*time.Timer).Stop":   func(fr *frame, args []value) value { return fr.i.timerArm(args[0], false) },
 		"(*time.Timer).Reset":  func(fr *frame, args []value) value { return fr.i.timerArm(args[0], true) },
